@@ -207,9 +207,32 @@ def constructor(rep, lib):
     okc = False
     if len(cagg) == 1:
         o = dict(zip(cagg[0]["fields"], cagg[0]["ops"])).get("input_context")
+        ic_sites = {(bb, idx) for bb, idx, place, rv, _ in b.assignments()
+                    if rv["k"] == "agg" and rv.get("adt") == "processor::InputContext"}
         if o is not None:
-            okc = any(a[0] == "agg" for a in pr.origins(o)) or any(
-                a[0] == "call" and "Rc" in (b.call_at[a[1]].name or "") for a in pr.origins(o))
+            # the InputContext aggregate reaches this field through Some(..), Rc::new(..), Option::map(Rc::new) ...
+            pr2 = Prov(b, LOOKX + ("Rc::<T>::new", "Option::<T>::map"))
+            seen, work, hit, other = set(), list(pr2.origins(o)), False, False
+            while work:
+                a = work.pop()
+                if a in seen:
+                    continue
+                seen.add(a)
+                if a[0] == "agg":
+                    if (a[1], a[2]) in ic_sites:
+                        hit = True
+                        continue
+                    rvx = b.stmts(a[1])[a[2]]["rv"]
+                    if rvx.get("variant_name") == "None":
+                        other = True
+                    for oo in rvx["ops"]:
+                        work.extend(pr2.origins(oo))
+                elif a[0] in ("call", "arg"):
+                    if a[0] == "call" and (b.call_at[a[1]].name or "").startswith(("std::rc::Rc::<T>::new", "core::ops::function")):
+                        continue
+                    if a[0] == "arg":
+                        other = True
+            okc = hit and not other
     if okc:
         r.ok("Context.input_context", "Some(Rc::new(input_context))", b.where())
     else:
